@@ -8,15 +8,19 @@ Go's `bufio.Reader` semantics, for EVERY buffer size `cfg`. `encodeFile` / `enco
 A record list is well-formed (`WFRec`) when every record is 64 bytes starting 62,0, has the has-value flag iff it has a value
 frame, and value frames are length-prefixed.
 
-Verdict on the unchanged code: the full statement `C08_prefix` is FALSE.
-* cuts at a record boundary (any cut of the value file): proved clean, for all inputs (`C08_prefix_partial`);
-* empty record file: clean (`C08_empty_file`);
-* cuts 1–11 bytes into the header: start-up error, for all inputs (`C08_header_cut_fails`);
-* cuts inside a record, EVERY residue 1–63: never clean — either a start-up error ("Lock Len error", when the torn record
-  straddles a bufio refill) or the torn record is replayed completed with the previous record's bytes
-  (`C08_torn_outcomes` for all inputs; witnesses `C08_prefix_fails`, `C08_restart_fails_torn` by evaluation);
-* second restart: fine after a boundary cut with complete values (`C08_second_restart_partial`), broken after a torn record
-  or a missing value (`C08_second_restart_fails_torn`, `C08_second_restart_fails_value`).
+State after the repairs `fix: ReadLock returns the second read's error …` and `fix: AofFile.Open in append mode truncates …`:
+
+* **for every cut of the record file and every consistent cut of the value file, whatever is handed to the engine is exactly
+  the live prefix of the complete records whose values are complete** (`C08_all_cuts`, hence `C08_no_reconstruction` for all
+  cuts): no record is ever reconstructed from partial bytes;
+* the next start SUCCEEDS for every cut except (a) 1–11 bytes of header left (`C08_header_cut_fails`, all inputs) and (b) a
+  torn record that straddles a bufio refill — "Lock Len error" (`C08_restart_fails_torn`, witness; residues 53–63 of the 64th,
+  128th, … record with the default 4096-byte buffer, of every record with a 64-byte buffer). `C08_all_cuts` states that these
+  are the only cuts that can fail. So the full `C08_prefix` ("the next start succeeds") is still FALSE at those cuts;
+* second restart: after ANY cut of the record file at or beyond the header, with complete values, the reopened file is cut
+  back to the last record boundary and the following restart recovers `pre ++ more` (`C08_second_restart`, all inputs);
+  it is still broken when a record reached the disk and its value did not (`C08_second_restart_fails_value`): the value file
+  is not realigned with the record file.
 -/
 namespace Slock.C08
 open Slock.Aof
@@ -33,11 +37,26 @@ theorem layout_tie :
 /-- Number of complete records in a record file of `cut` bytes. -/
 def completeRecords (cut : Nat) : Nat := (cut - 12) / 64
 
+theorem encodeFile_length (recs : List Rec) (hw : ∀ x ∈ recs, WFBuf x.buf) : (encodeFile recs).length = 12 + 64 * recs.length := by
+  simp only [encodeFile, List.length_append, headerBytes_length, encodeRecs_length recs hw]
+
+/-- The record file cut `res ≤ 64` bytes into record `x`. -/
+theorem take_cut (pre : List Rec) (x : Rec) (post : List Rec) (res : Nat) (hw : ∀ y ∈ pre, WFBuf y.buf) (hx : WFBuf x.buf)
+    (h64 : res ≤ 64) :
+    (encodeFile (pre ++ x :: post)).take (12 + 64 * pre.length + res) = headerBytes ++ encodeRecs pre ++ x.buf.take res := by
+  unfold encodeFile
+  rw [encodeRecs_append, encodeRecs_cons, ← List.append_assoc]
+  have hl : (headerBytes ++ encodeRecs pre).length = 12 + 64 * pre.length := by
+    simp [headerBytes_length, encodeRecs_length pre hw]
+  rw [List.take_append, hl, List.take_of_length_le (by omega)]
+  have : 12 + 64 * pre.length + res - (12 + 64 * pre.length) = res := by omega
+  rw [this, List.take_append_of_le_length (by rw [hx.length]; omega)]
+
 /-- **Boundary cuts, all inputs.** Records `pre ++ post` were written; the record file is cut exactly after `pre`, the value
 file is cut at ANY byte `dc` of `pre`'s values. The restart succeeds and hands the engine exactly the longest prefix of `pre`
 whose values are complete (minus records whose hold had already expired at `now`), each record with its own bytes and value. -/
 theorem C08_prefix_partial (cfg : Nat) (now : Int) (pre post : List Rec) (dc : Nat)
-    (hw : ∀ x ∈ pre, WFRec x) (_hp : ∀ x ∈ post, WFRec x) :
+    (hw : ∀ x ∈ pre, WFRec x) :
     load cfg now ((encodeFile (pre ++ post)).take (12 + 64 * pre.length)) ((encodeData pre).take dc) =
       (live now (pre.take (valuePrefix pre dc)), true) := by
   have hwb : ∀ x ∈ pre, WFBuf x.buf := fun x hx => (hw x hx).1
@@ -49,91 +68,134 @@ theorem C08_prefix_partial (cfg : Nat) (now : Int) (pre post : List Rec) (dc : N
     exact List.take_left' this
   rw [hcut]
   obtain ⟨h1, h2⟩ := loadFile_boundary cfg now (zeros 64) pre dc hw zeros_oldOK
-  unfold load loadFiles loadFilesFrom
-  generalize hres : loadFile cfg now (zeros 64) ⟨encodeFile pre, some ((encodeData pre).take dc)⟩ = res at h1 h2
-  obtain ⟨rs, st, b⟩ := res
-  simp only at h1 h2
-  subst h1
-  by_cases hv : valuePrefix pre dc = pre.length
-  · simp only [hv, if_true] at h2; subst h2; simp [loadFilesFrom]
-  · simp only [hv, if_false] at h2; subst h2; simp
+  obtain ⟨e1, e2⟩ := load_eq cfg now (encodeFile pre) ((encodeData pre).take dc)
+  have hok : (load cfg now (encodeFile pre) ((encodeData pre).take dc)).2 = true := by
+    rw [e2, h2]; split <;> simp
+  rw [Prod.ext_iff]; exact ⟨by rw [e1, h1], hok⟩
+
+theorem valuePrefix_full : ∀ (l : List Rec), valuePrefix l (encodeData l).length = l.length
+  | [] => rfl
+  | x :: xs => by
+    have ih := valuePrefix_full xs
+    rw [encodeData_cons]
+    cases hd : x.data with
+    | none => simp [valuePrefix, hd, ih]; omega
+    | some b => simp [valuePrefix, hd, ih]; omega
 
 /-- With the value file complete, a boundary cut recovers ALL complete records: `take (completeRecords cut) recs`. -/
-theorem C08_prefix_boundary (cfg : Nat) (now : Int) (pre post : List Rec)
-    (hw : ∀ x ∈ pre, WFRec x) (hp : ∀ x ∈ post, WFRec x) :
+theorem C08_prefix_boundary (cfg : Nat) (now : Int) (pre post : List Rec) (hw : ∀ x ∈ pre, WFRec x) :
     load cfg now ((encodeFile (pre ++ post)).take (12 + 64 * pre.length)) (encodeData pre) =
       (live now ((pre ++ post).take (completeRecords (12 + 64 * pre.length))), true) := by
-  have h := C08_prefix_partial cfg now pre post (encodeData pre).length hw hp
+  have h := C08_prefix_partial cfg now pre post (encodeData pre).length hw
   rw [List.take_length] at h
   rw [h]
-  have hvp : ∀ (l : List Rec), (∀ x ∈ l, WFRec x) → valuePrefix l (encodeData l).length = l.length := by
-    intro l
-    induction l with
-    | nil => intro _; rfl
-    | cons x xs ih =>
-      intro hl
-      have ihx := ih (fun y hy => hl y (by simp [hy]))
-      rw [encodeData_cons]
-      cases hd : x.data with
-      | none => simp [valuePrefix, hd, ihx]; omega
-      | some b => simp [valuePrefix, hd, ihx]; omega
   have hc : completeRecords (12 + 64 * pre.length) = pre.length := by unfold completeRecords; omega
-  rw [hvp pre hw, hc]
+  rw [valuePrefix_full pre, hc]
   simp
-
-/-- No record is reconstructed from partial bytes — at boundary cuts: every delivered record is one of the written records,
-with its own value. -/
-theorem C08_no_reconstruction_partial (cfg : Nat) (now : Int) (pre post : List Rec) (dc : Nat)
-    (hw : ∀ x ∈ pre, WFRec x) (hp : ∀ x ∈ post, WFRec x) :
-    ∀ r ∈ (load cfg now ((encodeFile (pre ++ post)).take (12 + 64 * pre.length)) ((encodeData pre).take dc)).1, r ∈ pre := by
-  rw [C08_prefix_partial cfg now pre post dc hw hp]
-  intro r hr
-  simp only [live, List.mem_filter] at hr
-  exact List.mem_of_mem_take hr.1
 
 /-- Empty record file (crash right after `create`): nothing loaded, no error. -/
 theorem C08_empty_file (cfg : Nat) (now : Int) (dat : Bytes) : load cfg now [] dat = ([], true) := by
   unfold load loadFiles loadFilesFrom
   rw [loadFile_empty]
 
-/-- **Header cuts, all inputs.** 1–11 bytes of the header on disk: the next start FAILS (the older files' records are not
-recovered either) — "the next start succeeds" is violated. -/
+/-- **Header cuts, all inputs.** 1–11 bytes of the header on disk: the next start FAILS (nothing is handed to the engine from
+this file, and the older files' records are not recovered either) — "the next start succeeds" is violated. -/
 theorem C08_header_cut_fails (cfg : Nat) (now : Int) (recs : List Rec) (dat : Bytes) (c : Nat) (h0 : 0 < c) (h12 : c < 12) :
-    (load cfg now ((encodeFile recs).take c) dat).2 = false := by
+    load cfg now ((encodeFile recs).take c) dat = ([], false) := by
   have hl : ((encodeFile recs).take c).length = c := by
     simp [encodeFile, headerBytes_length]; omega
   have h := loadFile_header_cut cfg now (zeros 64) ((encodeFile recs).take c) (some dat) (by omega) (by omega)
   unfold load loadFiles loadFilesFrom
-  generalize loadFile cfg now (zeros 64) ⟨(encodeFile recs).take c, some dat⟩ = res at h
-  obtain ⟨rs, st, b⟩ := res
-  simp only at h
-  subst h
-  rfl
+  rw [h]
 
 /-- **Torn records, all inputs, every residue 1–63.** The record file is cut `res` bytes into record `x`, after the complete
-records `pre`. The load is EITHER the loop over `pre` ending in a start-up error, OR the loop over `pre` followed by the replay
-of `padded x res old` — `x`'s first `res` bytes completed with bytes `res..63` of the previous record (of this file, or of the
-previous file, or zeros). Which one depends only on whether the torn record straddles a bufio refill. -/
-theorem C08_torn_outcomes (cfg : Nat) (now : Int) (buf0 : Bytes) (pre : List Rec) (x : Rec) (post : List Rec) (res : Nat)
-    (dat : Option Bytes) (hw : ∀ y ∈ pre, WFBuf y.buf) (hx : WFBuf x.buf) (hb : OldOK buf0) (h0 : 0 < res) (h64 : res < 64) :
-    let img : FileImg := ⟨(encodeFile (pre ++ x :: post)).take (12 + 64 * pre.length + res), dat⟩
-    let d0 := dat.map (Rd.open (bufioCap (fileBufSize cfg * 64)))
-    loadFile cfg now buf0 img = specK now (fun _ buf' => ([], Stop.err, buf')) pre d0 buf0 ∨
-    loadFile cfg now buf0 img = specK now (fun d' buf' => specK now Kend [padded x res buf'] d' buf') pre d0 buf0 := by
-  intro img d0
-  have hcut : (encodeFile (pre ++ x :: post)).take (12 + 64 * pre.length + res) = headerBytes ++ encodeRecs pre ++ x.buf.take res := by
-    unfold encodeFile
-    rw [encodeRecs_append, encodeRecs_cons, ← List.append_assoc]
-    have hl : (headerBytes ++ encodeRecs pre).length = 12 + 64 * pre.length := by
-      simp [headerBytes_length, encodeRecs_length pre hw]
-    rw [List.take_append, hl, List.take_of_length_le (by omega)]
-    have : 12 + 64 * pre.length + res - (12 + 64 * pre.length) = res := by omega
-    rw [this, List.take_append_of_le_length (by rw [hx.length]; omega)]
-  show loadFile cfg now buf0 ⟨_, dat⟩ = _ ∨ loadFile cfg now buf0 ⟨_, dat⟩ = _
-  rw [hcut]
-  exact loadFile_torn cfg now buf0 pre x res dat hw hx hb h0 h64
+records `pre`; the value file is cut anywhere in `pre`'s values. What is handed to the engine is exactly the live prefix of
+`pre` whose values are complete — the torn record is never replayed — and the start either succeeds or (only when all values
+were there, i.e. the reader actually reached the torn record) fails with "Lock Len error". -/
+theorem C08_torn_outcomes (cfg : Nat) (now : Int) (pre : List Rec) (x : Rec) (post : List Rec) (res dc : Nat)
+    (hw : ∀ y ∈ pre, WFRec y) (hx : WFBuf x.buf) (h0 : 0 < res) (h64 : res < 64) :
+    (load cfg now ((encodeFile (pre ++ x :: post)).take (12 + 64 * pre.length + res)) ((encodeData pre).take dc)).1 =
+      live now (pre.take (valuePrefix pre dc)) ∧
+    ((load cfg now ((encodeFile (pre ++ x :: post)).take (12 + 64 * pre.length + res)) ((encodeData pre).take dc)).2 = true ∨
+     valuePrefix pre dc = pre.length) := by
+  have hwb : ∀ y ∈ pre, WFBuf y.buf := fun y hy => (hw y hy).1
+  rw [take_cut pre x post res hwb hx (by omega)]
+  obtain ⟨e1, e2⟩ := load_eq cfg now (headerBytes ++ encodeRecs pre ++ x.buf.take res) ((encodeData pre).take dc)
+  obtain ⟨h1, h2⟩ := loadFile_torn_values cfg now (zeros 64) pre x res dc hw hx zeros_oldOK h0 h64
+  refine ⟨by rw [e1, h1], ?_⟩
+  by_cases hv : valuePrefix pre dc = pre.length
+  · exact Or.inr hv
+  · left
+    rw [e2]
+    rcases h2 with h2 | h2 <;> rw [h2] <;> simp [hv]
 
-/-! ### Witnesses on the unchanged code (evaluated by the kernel) -/
+/-- **Every cut, all inputs.** The record file is cut at ANY byte `c`; the value file holds any prefix of the values of the
+complete records. (1) The records handed to the engine are exactly the live prefix of the complete records whose values are
+complete. (2) The start succeeds, except possibly when the cut is inside the header or inside a record. -/
+theorem C08_all_cuts (cfg : Nat) (now : Int) (recs : List Rec) (c dc : Nat) (hw : ∀ x ∈ recs, WFRec x) :
+    (load cfg now ((encodeFile recs).take c) ((encodeData (recs.take (completeRecords c))).take dc)).1 =
+      live now ((recs.take (completeRecords c)).take (valuePrefix (recs.take (completeRecords c)) dc)) ∧
+    ((load cfg now ((encodeFile recs).take c) ((encodeData (recs.take (completeRecords c))).take dc)).2 = true ∨
+      (0 < c ∧ c < 12) ∨ (12 ≤ c ∧ (c - 12) % 64 ≠ 0 ∧ completeRecords c < recs.length)) := by
+  have hwb : ∀ x ∈ recs, WFBuf x.buf := fun x hx => (hw x hx).1
+  by_cases hc12 : c < 12
+  · have hk : completeRecords c = 0 := by unfold completeRecords; omega
+    rw [hk]
+    by_cases hc0 : c = 0
+    · subst hc0
+      simp only [List.take_zero]
+      rw [C08_empty_file]
+      exact ⟨by simp [live, valuePrefix], Or.inl rfl⟩
+    · rw [C08_header_cut_fails cfg now recs _ c (by omega) hc12]
+      exact ⟨by simp [live, valuePrefix], Or.inr (Or.inl ⟨by omega, hc12⟩)⟩
+  · by_cases hk : completeRecords c < recs.length
+    · -- the cut falls into record number `completeRecords c`
+      obtain ⟨pre, x, post, hrecs, hlen⟩ : ∃ pre x post, recs = pre ++ x :: post ∧ pre.length = completeRecords c := by
+        refine ⟨recs.take (completeRecords c), recs[completeRecords c], recs.drop (completeRecords c + 1), ?_, ?_⟩
+        · rw [← List.drop_eq_getElem_cons hk, List.take_append_drop]
+        · rw [List.length_take]; omega
+      have hcres : c = 12 + 64 * pre.length + (c - 12) % 64 := by rw [hlen]; unfold completeRecords; omega
+      have htk : recs.take (completeRecords c) = pre := by rw [hrecs, ← hlen]; exact List.take_left' rfl
+      have hwp : ∀ y ∈ pre, WFRec y := fun y hy => hw y (by rw [hrecs]; simp [hy])
+      have hx : WFBuf x.buf := hwb x (by rw [hrecs]; simp)
+      rw [htk]
+      by_cases hres : (c - 12) % 64 = 0
+      · have hc' : c = 12 + 64 * pre.length := by omega
+        rw [hc', hrecs, C08_prefix_partial cfg now pre (x :: post) dc hwp]
+        exact ⟨rfl, Or.inl rfl⟩
+      · obtain ⟨t1, t2⟩ := C08_torn_outcomes cfg now pre x post ((c - 12) % 64) dc hwp hx (by omega) (Nat.mod_lt _ (by omega))
+        rw [← hcres, ← hrecs] at t1 t2
+        refine ⟨t1, ?_⟩
+        rcases t2 with t2 | _
+        · exact Or.inl t2
+        · exact Or.inr (Or.inr ⟨by omega, hres, hk⟩)
+    · -- the cut is at or beyond the end of the file
+      have hlen := encodeFile_length recs hwb
+      have hge : recs.length ≤ completeRecords c := by omega
+      have hcl : (encodeFile recs).length ≤ c := by rw [hlen]; unfold completeRecords at hge; omega
+      rw [List.take_of_length_le hcl, List.take_of_length_le hge]
+      have h := C08_prefix_partial cfg now recs [] dc hw
+      rw [List.append_nil, ← hlen, List.take_length] at h
+      rw [h]
+      exact ⟨rfl, Or.inl rfl⟩
+
+/-- **No record is ever reconstructed from partial bytes — every cut, all inputs**: each record handed to the engine is one of
+the written records, with its own 64 bytes and its own value. -/
+theorem C08_no_reconstruction (cfg : Nat) (now : Int) (recs : List Rec) (c dc : Nat) (hw : ∀ x ∈ recs, WFRec x) :
+    ∀ r ∈ (load cfg now ((encodeFile recs).take c) ((encodeData (recs.take (completeRecords c))).take dc)).1, r ∈ recs := by
+  rw [(C08_all_cuts cfg now recs c dc hw).1]
+  intro r hr
+  simp only [live, List.mem_filter] at hr
+  exact List.mem_of_mem_take (List.mem_of_mem_take hr.1)
+
+/-- When the start succeeds, the result is the clean prefix (restating `C08_all_cuts` in the shape of `C08_prefix`). -/
+theorem C08_prefix_when_started (cfg : Nat) (now : Int) (recs : List Rec) (c dc : Nat) (hw : ∀ x ∈ recs, WFRec x)
+    (hok : (load cfg now ((encodeFile recs).take c) ((encodeData (recs.take (completeRecords c))).take dc)).2 = true) :
+    load cfg now ((encodeFile recs).take c) ((encodeData (recs.take (completeRecords c))).take dc) =
+      (live now ((recs.take (completeRecords c)).take (valuePrefix (recs.take (completeRecords c)) dc)), true) := by
+  rw [Prod.ext_iff]; exact ⟨(C08_all_cuts cfg now recs c dc hw).1, hok⟩
+
+/-! ### Witnesses (evaluated by the kernel) -/
 
 set_option maxRecDepth 1000000
 
@@ -146,53 +208,69 @@ example : WFRec r1 ∧ WFRec r2 := by
   · show hasData r1.buf = false; decide
   · show hasData r2.buf = false; decide
 
-/-- **`C08_prefix` is false.** Two records written, the file cut 20 bytes into the second (default buffer 4096): the restart
-succeeds and hands the engine TWO records — the second made of 20 bytes of `r2` and 44 bytes of `r1`. -/
-theorem C08_prefix_fails :
-    load 4096 0 ((encodeFile [r1, r2]).take (12 + 64 + 20)) [] =
-      ([r1, ⟨r2.buf.take 20 ++ r1.buf.drop 20, none⟩], true) ∧
-    load 4096 0 ((encodeFile [r1, r2]).take (12 + 64 + 20)) [] ≠ (live 0 ([r1, r2].take (completeRecords (12 + 64 + 20))), true) := by
+/-- The former counterexample to `C08_prefix` (two records, the file cut 20 bytes into the second, buffer 4096) is now clean:
+exactly `r1` is recovered. -/
+theorem C08_torn_tail_clean_example :
+    load 4096 0 ((encodeFile [r1, r2]).take (12 + 64 + 20)) [] = (live 0 ([r1, r2].take (completeRecords (12 + 64 + 20))), true) := by
   decide
 
-/-- `C08_no_reconstruction` is false: the record handed over above is neither of the written records. -/
-theorem C08_no_reconstruction_fails :
-    ∃ r ∈ (load 4096 0 ((encodeFile [r1, r2]).take (12 + 64 + 20)) []).1, r ∉ [r1, r2] := by
-  decide
-
-/-- The other outcome of a torn record: with a 64-byte buffer every record straddles a refill; a cut 53 bytes into the
-second record makes the next start fail ("Lock Len error"). With the default 4096-byte buffer the same happens for the 64th,
-128th, … record of a file (residues 53–63). -/
+/-- **`C08_prefix` is still false: the next start can fail.** With a 64-byte buffer every record straddles a refill; a cut 53
+bytes into the second record makes the next start fail ("Lock Len error"). With the default 4096-byte buffer the same happens
+for the 64th, 128th, … record of a file (residues 53–63). Nothing but `r1` has been handed to the engine. -/
 theorem C08_restart_fails_torn :
-    (load 64 0 ((encodeFile [r1, r2]).take (12 + 64 + 53)) []).2 = false := by
+    load 64 0 ((encodeFile [r1, r2]).take (12 + 64 + 53)) [] = ([r1], false) := by
   decide
 
 /-! ### Second restart -/
 
-/-- Append-mode reopen keeps any file of 12 or more bytes exactly as it is — aligned or not. -/
-theorem openAppend_keeps (f : Bytes) (h : 12 ≤ f.length) : openAppend f = f := by
+/-- Append-mode reopen keeps an aligned file exactly as it is. -/
+theorem openAppend_aligned (f : Bytes) (h : 12 ≤ f.length) (ha : (f.length - 12) % 64 = 0) : openAppend f = f := by
   unfold openAppend
   have h1 : ¬ f.length = 0 := by omega
   have h2 : ¬ f.length < 12 := by omega
-  simp [h1, h2]
+  simp [h1, h2, ha]
 
-/-- **Second restart after a boundary cut with complete values, all inputs**: the reopened file is kept as is, and once the
-writer has appended the records `more` (record bytes `encodeRecs more`, value bytes `encodeData more` — the writer's output,
-tied to the real `AofFile` by the `aofappend` differential) the following restart recovers `pre ++ more`. -/
-theorem C08_second_restart_partial (cfg : Nat) (now : Int) (pre more : List Rec)
-    (hw : ∀ x ∈ pre, WFRec x) (hm : ∀ x ∈ more, WFRec x) :
-    load cfg now (openAppend (encodeFile pre) ++ encodeRecs more) (encodeData pre ++ encodeData more) =
-      (live now (pre ++ more), true) := by
-  have hl : 12 ≤ (encodeFile pre).length := by simp [encodeFile, headerBytes_length]
-  rw [openAppend_keeps _ hl]
-  have hw' : ∀ x ∈ pre ++ more, WFRec x := by
-    intro x hx; rcases List.mem_append.mp hx with h | h
-    · exact hw x h
-    · exact hm x h
-  have h := C08_prefix_boundary cfg now (pre ++ more) [] hw' (by simp)
+/-- Append-mode reopen of a record file cut `res < 64` bytes into record `x`: truncated back to the complete records. -/
+theorem openAppend_cut (pre : List Rec) (x : Rec) (post : List Rec) (res : Nat) (hw : ∀ y ∈ pre, WFBuf y.buf) (hx : WFBuf x.buf)
+    (h64 : res < 64) :
+    openAppend ((encodeFile (pre ++ x :: post)).take (12 + 64 * pre.length + res)) = encodeFile pre := by
+  rw [take_cut pre x post res hw hx (by omega)]
+  have hA : (headerBytes ++ encodeRecs pre).length = 12 + 64 * pre.length := by
+    simp [headerBytes_length, encodeRecs_length pre hw]
+  have ht : (x.buf.take res).length = res := by rw [List.length_take, hx.length]; omega
+  have hl : (headerBytes ++ encodeRecs pre ++ x.buf.take res).length = 12 + 64 * pre.length + res := by
+    rw [List.length_append, hA, ht]
+  unfold openAppend
+  rw [hl]
+  have h1 : ¬ 12 + 64 * pre.length + res = 0 := by omega
+  have h2 : ¬ 12 + 64 * pre.length + res < 12 := by omega
+  have h3 : (12 + 64 * pre.length + res - 12) % 64 = res := by omega
+  simp only [h1, h2, h3, if_false]
+  by_cases hr : res = 0
+  · subst hr; simp [encodeFile]
+  · simp only [ne_eq, hr, not_false_eq_true, if_true]
+    have : 12 + 64 * pre.length + res - res = (headerBytes ++ encodeRecs pre).length := by rw [hA]; omega
+    rw [this, List.take_left']
+    · rfl
+    · rfl
+
+/-- **Second restart, all inputs, every cut of the record file at or beyond the header** (values complete): the restart over
+the cut log recovers `pre`; the file is reopened for append — cut back to the last record boundary —, the writer appends `more`
+(record bytes `encodeRecs more`, value bytes `encodeData more`: the writer's output, tied to the real `AofFile` by the
+`aofappend` / `aofwrites` differential), and the following restart recovers `pre ++ more`. -/
+theorem C08_second_restart (cfg : Nat) (now : Int) (pre : List Rec) (x : Rec) (post more : List Rec) (res : Nat)
+    (hw : ∀ y ∈ pre, WFRec y) (hx : WFBuf x.buf) (hm : ∀ y ∈ more, WFRec y) (h64 : res < 64) :
+    load cfg now (openAppend ((encodeFile (pre ++ x :: post)).take (12 + 64 * pre.length + res)) ++ encodeRecs more)
+        (encodeData pre ++ encodeData more) = (live now (pre ++ more), true) := by
+  rw [openAppend_cut pre x post res (fun y hy => (hw y hy).1) hx h64]
+  have hw' : ∀ y ∈ pre ++ more, WFRec y := by
+    intro y hy; rcases List.mem_append.mp hy with h | h
+    · exact hw y h
+    · exact hm y h
+  have h := C08_prefix_boundary cfg now (pre ++ more) [] hw'
+  have hlen := encodeFile_length (pre ++ more) (fun y hy => (hw' y hy).1)
   have e1 : encodeFile pre ++ encodeRecs more = (encodeFile ((pre ++ more) ++ [])).take (12 + 64 * (pre ++ more).length) := by
-    have : (encodeFile (pre ++ more)).length = 12 + 64 * (pre ++ more).length := by
-      simp only [encodeFile, List.length_append, headerBytes_length, encodeRecs_length (pre ++ more) (fun x hx => (hw' x hx).1)]
-    rw [List.append_nil, ← this, List.take_length]
+    rw [List.append_nil, ← hlen, List.take_length]
     simp [encodeFile, encodeRecs_append]
   have e2 : encodeData pre ++ encodeData more = encodeData (pre ++ more) := by simp [encodeData]
   rw [e1, e2, h]
@@ -201,20 +279,20 @@ theorem C08_second_restart_partial (cfg : Nat) (now : Int) (pre more : List Rec)
 
 def r3 : Rec := mk 0x55
 
-/-- **`C08_second_restart` is false after a torn record**: the image of `C08_prefix_fails` is reopened for append as is
-(84 bytes = 12 + 64 + 20), `r3` is appended at offset 84 (not 12 mod 64); the following restart does not recover `r3`. -/
-theorem C08_second_restart_fails_torn :
+/-- The former counterexample (torn image of 84 bytes reopened, `r3` appended) now works: the file is cut back to 76 bytes,
+`r3` lands at a record boundary and the following restart recovers `[r1, r3]`. -/
+theorem C08_second_restart_torn_example :
     let img := (encodeFile [r1, r2]).take (12 + 64 + 20)
     let after := appendAfterRestart 4096 img (some []) [r3]
-    after.1.length = 160 ∧ r3 ∉ (load 4096 0 after.1 after.2).1 := by
+    after.1.length = 140 ∧ load 4096 0 after.1 after.2 = ([r1, r3], true) := by
   decide
 
 def v1 : Rec := ⟨62 :: 0 :: List.replicate 54 0x11 ++ [0x20] ++ List.replicate 7 0, some [2, 0, 0, 0, 0xaa, 0xaa]⟩
 def v2 : Rec := ⟨62 :: 0 :: List.replicate 54 0x44 ++ [0x20] ++ List.replicate 7 0, some [1, 0, 0, 0, 0xbb]⟩
 
-/-- **`C08_second_restart` is false after a crash between the two writes of a flush**: `v1`'s record reached the disk, its
-value did not (record file complete, value file empty). The first restart is clean (nothing loaded). After it `v2` is appended
-with its value; the following restart hands `v1` to the engine with `v2`'s value, and `v2` not at all. -/
+/-- **`C08_second_restart` is still false after a crash between the two writes of a flush**: `v1`'s record reached the disk,
+its value did not (record file complete, value file empty). The first restart is clean (nothing loaded). After it `v2` is
+appended with its value; the following restart hands `v1` to the engine with `v2`'s value, and `v2` not at all. -/
 theorem C08_second_restart_fails_value :
     load 4096 0 (encodeFile [v1]) [] = ([], true) ∧
     (let after := appendAfterRestart 4096 (encodeFile [v1]) (some []) [v2]
